@@ -412,6 +412,9 @@ def t_len(t):
         return Poly.atom(("flatlen", flat_base(t[1]), t_len(t[2])))
     if op == "single":
         return Poly.const(1)
+    if op in ("sel", "lfilter"):
+        # the positions selected by one mask: every sequence filtered by it has the same length
+        return Poly.atom(("count", t[2]))
     if op == "Fsizes":
         return t_len(t[2])
     if op == "Fmap":
@@ -480,6 +483,8 @@ def term_facts(st, t):
         st.add_ge(t_len(t[1]) - Poly.atom(("nuniq", t[1])))
     elif op == "zero":
         st.add_ge(t_len(t[1]) - Poly.atom(("nzero", t[1])))
+    elif op in ("sel", "lfilter"):
+        st.add_ge(t_len(t[2][1]) - Poly.atom(("count", t[2])))
 
 
 def ubs(st, t):
@@ -514,7 +519,7 @@ def ubs(st, t):
         out.append(Poly.atom(("ncomp", t[1], t[2], t[3])))
     elif op == "argsort":
         out.append(t_len(t[1]))
-    elif op in ("slice", "sortby", "ssa", "sub"):
+    elif op in ("slice", "sortby", "ssa", "sub", "sel"):
         out += ubs(st, t[1])
     elif op == "sac":
         # old array with some positions overwritten by constant c
